@@ -97,7 +97,7 @@ def register(reg):
            ("layer-flag", "newlayer == (parent.depth == self.depth)", "C03"),
        ],
        modifies=["parent.children", "self.depth", "list(self.node_list)",
-                 "list(self.node_list[parent.depth + 1]) if not newlayer"],
+                 "list(self.node_list[parent.depth + 1]) when not newlayer"],
        ensures=treewf("self") + [
            ("depth", "self.depth == old(self.depth) + (1 if newlayer else 0)", "C03"),
            ("arity", "parent.children is not None and fresh(parent.children) and len(parent.children) == Arity(self)",
